@@ -7,6 +7,8 @@
 (*   "await" t  the Acquire of t returns                    (RetOk of a blocked/blocking acquire)        *)
 (*   "try" t   TryToAcquire by t, to completion           (Call, XchgOk|XchgBusy, RetOk|RetFail)       *)
 (*   "rel" t   Release by the holder t, to completion     (RelCall, Store0, RelRet)                    *)
+(*   "srel" t  Release by a task that holds nothing, while the lock is free and nobody is inside a      *)
+(*             call, to completion                        (StrayCall, StrayStore, StrayRet)            *)
 (* The Go harness replays the commands on the real lock with one goroutine per task; what the real     *)
 (* code did is judged by SpinTrace, not by this module.                                                *)
 EXTENDS Spinlock, TLC, Json, CSV, IOUtils
@@ -14,7 +16,7 @@ CONSTANT MaxLen
 VARIABLE hist
 svars == <<state, pc, counter, tmp, done, hist>>
 
-Transient(t) == pc[t] \in {"try", "wonT", "lost", "rel", "released"}
+Transient(t) == pc[t] \in {"try", "wonT", "lost", "rel", "released", "srel", "sreleased"}
 Quiet == \A t \in Tasks : ~Transient(t)
 \* a blocked Acquire has taken or can take the lock: until its return has been awaited no other command
 \* is issued, so that what the real lock does next does not depend on a race the harness cannot control
@@ -32,9 +34,11 @@ Next == \E t \in Tasks :
          \/ Call(t, "try") /\ Cmd("try", t)
    \/ /\ Quiet /\ Len(hist) < MaxLen /\ pc[t] = "wonA" /\ RetOk(t) /\ Cmd("await", t)
    \/ /\ Quiet /\ ~Racy /\ Len(hist) < MaxLen /\ RelCall(t) /\ Cmd("rel", t)
+   \/ /\ Quiet /\ ~Racy /\ Len(hist) < MaxLen /\ MayStart(t) /\ StrayCall(t) /\ Cmd("srel", t)
    \/ /\ Quiet /\ pc[t] = "acq" /\ XchgOk(t) /\ UNCHANGED hist
    \/ /\ Transient(t) /\ UNCHANGED hist
-      /\ (XchgOk(t) \/ XchgBusy(t) \/ (pc[t] = "wonT" /\ RetOk(t)) \/ RetFail(t) \/ Store0(t) \/ RelRet(t))
+      /\ (XchgOk(t) \/ XchgBusy(t) \/ (pc[t] = "wonT" /\ RetOk(t)) \/ RetFail(t) \/ Store0(t) \/ RelRet(t)
+            \/ StrayStore(t) \/ StrayRet(t))
 
 Emit == (Len(hist) = MaxLen /\ Quiet) => CSVWrite("%1$s", <<ToJson(hist)>>, IOEnv.CASES)
 ====
